@@ -43,6 +43,7 @@ type Model struct {
 	ctx       *Ctx
 	flatCache map[types.Type][]Comp
 	qual      types.Qualifier
+	defs      map[string]storeDef
 }
 
 func NewModel(ctx *Ctx) *Model {
@@ -294,6 +295,49 @@ func (m *Model) heapSet(s *State, k HeapKey, term string) {
 	n := m.ctx.Fresh(k.Key, k.Sort)
 	m.ctx.Assume(Eq(n, term))
 	s.heap[k.Key] = n
+}
+
+type storeDef struct{ prev, idx, val string }
+
+// heapStore: H' = store(H, idx, val), remembered so that later reads of the same index are
+// forwarded syntactically (keeps terms small and lets statically known dynamic types through).
+func (m *Model) heapStore(s *State, k HeapKey, idx, val string) {
+	prev := m.heapGet(s, k)
+	n := m.ctx.Fresh(k.Key, k.Sort)
+	m.ctx.Assume(Eq(n, Store(prev, idx, val)))
+	s.heap[k.Key] = n
+	if m.defs == nil {
+		m.defs = map[string]storeDef{}
+	}
+	m.defs[n] = storeDef{prev, idx, val}
+}
+
+func distinctRefs(a, b string) bool {
+	an, bn := strings.HasPrefix(a, "new!"), strings.HasPrefix(b, "new!")
+	if an && bn {
+		return a != b
+	}
+	old := func(x string) bool { return strings.HasPrefix(x, "in.") || strings.HasPrefix(x, "glob$") || strings.HasPrefix(x, "free.") }
+	return an && old(b) || bn && old(a)
+}
+
+// Sel reads index idx of heap array version h, forwarding through remembered stores.
+func (m *Model) Sel(h, idx string) string {
+	for i := 0; i < 64; i++ {
+		d, ok := m.defs[h]
+		if !ok {
+			break
+		}
+		if d.idx == idx {
+			return d.val
+		}
+		if distinctRefs(d.idx, idx) {
+			h = d.prev
+			continue
+		}
+		break
+	}
+	return Select(h, idx)
 }
 
 func (m *Model) heapHavoc(s *State, k HeapKey) string {
